@@ -211,6 +211,113 @@ pub fn run(ctx: &mut Ctx) {
     });
     ctx.require_classes("shape.sqr.cubic", &["sqr<=30(simple)", "sqr>30(via mul)"]);
 
+    // cancellation / carry chains on long operands: a -+ (a +- d), a + (2^k - a), in-place forms
+    let deltas: Vec<BigInt> = vec![BigInt::zero(), BigInt::one(), BigInt::from(u64::MAX), BigInt::one() << 64u32, (BigInt::one() << 128u32) - 1, BigInt::from(shape(3, "lcgB", 0))];
+    let nd = deltas.len() as u64;
+    let dr = &deltas;
+    ctx.sweep("shape.cancel+carry", ns * nd, |i, rec| {
+        let (a, d) = (&shr[(i / nd) as usize], &dr[(i % nd) as usize]);
+        let class = size_class(a.len);
+        let ra = BigInt::from(a.v.clone());
+        let near = &ra + d;
+        let (ia, inear) = (ref_to_i(&ra), ref_to_i(&near));
+        let case = |op: &str| format!("{}w:{} {} (itself + {})", a.len, a.pat, op, hex(d));
+        expect_i(rec, P, "IBig::sub(cancel)", class, guard(|| &ia - &inear), &(-d.clone()), || case("-"));
+        expect_i(rec, P, "IBig::sub(cancel,val,val)", class, guard(|| inear.clone() - ia.clone()), d, || case("(rev)-"));
+        expect_i(rec, P, "IBig::sub_assign(cancel)", class, guard(|| { let mut t = inear.clone(); t -= &ia; t }), d, || case("-="));
+        expect_i(rec, P, "IBig::add(neg,cancel)", class, guard(|| -ia.clone() + &inear), d, || case("-a +"));
+        let (ua, un) = (ref_to_u(&a.v), ref_to_u(near.magnitude()));
+        expect_u(rec, P, "UBig::sub(cancel)", class, guard(|| &un - &ua), d.magnitude(), || case("-"));
+        expect_u(rec, P, "UBig::sub_assign(cancel)", class, guard(|| { let mut t = un.clone(); t -= ua.clone(); t }), d.magnitude(), || case("-="));
+        if !d.is_zero() {
+            expect_panic(rec, P, "UBig::sub(ref,ref)", "underflow", guard(|| &ua - &un), || case("a - (a+d)"));
+            expect_panic(rec, P, "UBig::sub(ref,val)", "underflow", guard(|| &ua - un.clone()), || case("a - (a+d)"));
+            expect_panic(rec, P, "UBig::sub(val,ref)", "underflow", guard(|| ua.clone() - &un), || case("a - (a+d)"));
+            expect_panic(rec, P, "UBig::sub_assign", "underflow", guard(|| { let mut t = ua.clone(); t -= &un; t }), || case("a -= (a+d)"));
+        }
+        // carry chain up to a power of two: a + (2^k - a) = 2^k
+        let k = a.v.bits() + 7;
+        let pw = BigUint::one() << k;
+        let comp = &pw - &a.v;
+        let uc = ref_to_u(&comp);
+        expect_u(rec, P, "UBig::add(carry-chain)", class, guard(|| &ua + &uc), &pw, || format!("{}w:{} + (2^{} - itself)", a.len, a.pat, k));
+        expect_u(rec, P, "UBig::add_assign(carry-chain)", class, guard(|| { let mut t = uc.clone(); t += &ua; t }), &pw, || format!("(2^{} - a) += {}w:{}", k, a.len, a.pat));
+        expect_u(rec, P, "UBig::add(+1 carry)", class, guard(|| ua.clone() + UBig::ONE), &(&a.v + 1u32), || format!("{}w:{} + 1", a.len, a.pat));
+        expect_u(rec, P, "UBig::mul_assign", class, guard(|| { let mut t = ua.clone(); t *= &uc; t }), &(&a.v * &comp), || format!("{}w:{} *= (2^{} - itself)", a.len, a.pat, k));
+        rec.nontrivial();
+        if a.len >= 3 && d.bits() <= 128 {
+            rec.hit("cancellation:heap->inline");
+        }
+        rec.sample(|| case("-"));
+    });
+    ctx.require_classes("shape.cancel+carry", &["cancellation:heap->inline"]);
+
+    // primitive operands (conversion-macro forms) on the closed universe
+    let prims: Vec<i128> = vec![0, 1, -1, 2, 255, -128, 65535, i32::MAX as i128, i32::MIN as i128, u32::MAX as i128, i64::MAX as i128, i64::MIN as i128, u64::MAX as i128, i128::MAX, i128::MIN + 1];
+    let npr = prims.len() as u64;
+    let prr = &prims;
+    ctx.sweep("closed.I3xprimitives", n * npr, |i, rec| {
+        let (a, pv) = (&i3r[(i / npr) as usize], prr[(i % npr) as usize]);
+        let b = BigInt::from(pv);
+        let ia = ref_to_i(a);
+        let class = "prim";
+        let case = |op: &str| format!("{} {} {} (primitive)", hex(a), op, pv);
+        expect_i(rec, P, "IBig+i128", class, guard(|| &ia + pv), &(a + &b), || case("+"));
+        expect_i(rec, P, "i128-IBig", class, guard(|| pv - &ia), &(&b - a), || case("(rev)-"));
+        expect_i(rec, P, "IBig*i128", class, guard(|| &ia * pv), &(a * &b), || case("*"));
+        expect_i(rec, P, "IBig-=i128", class, guard(|| { let mut t = ia.clone(); t -= pv; t }), &(a - &b), || case("-="));
+        if let Ok(p64) = i64::try_from(pv) {
+            expect_i(rec, P, "IBig-i64", class, guard(|| &ia - p64), &(a - &b), || case("-"));
+            expect_i(rec, P, "i64*IBig", class, guard(|| p64 * ia.clone()), &(a * &b), || case("*"));
+            expect_i(rec, P, "IBig*=i64", class, guard(|| { let mut t = ia.clone(); t *= p64; t }), &(a * &b), || case("*="));
+        }
+        if let Ok(p8) = i8::try_from(pv) {
+            expect_i(rec, P, "IBig+i8", class, guard(|| ia.clone() + p8), &(a + &b), || case("+"));
+        }
+        if pv >= 0 && nonneg(a) {
+            let ua = ref_to_u(a.magnitude());
+            let pu = pv as u128;
+            expect_u(rec, P, "UBig+u128", class, guard(|| &ua + pu), (a + &b).magnitude(), || case("+"));
+            expect_u(rec, P, "UBig*u128", class, guard(|| &ua * pu), (a * &b).magnitude(), || case("*"));
+            expect_u(rec, P, "u128*UBig", class, guard(|| pu * ua.clone()), (a * &b).magnitude(), || case("*"));
+            expect_u(rec, P, "UBig+=u128", class, guard(|| { let mut t = ua.clone(); t += pu; t }), (a + &b).magnitude(), || case("+="));
+            if *a >= b {
+                expect_u(rec, P, "UBig-u128", class, guard(|| &ua - pu), (a - &b).magnitude(), || case("-"));
+                expect_u(rec, P, "UBig-=u128", class, guard(|| { let mut t = ua.clone(); t -= pu; t }), (a - &b).magnitude(), || case("-="));
+            } else {
+                expect_panic(rec, P, "UBig-u128", "underflow", guard(|| &ua - pu), || case("-"));
+            }
+            if let Ok(p16) = u16::try_from(pu) {
+                expect_u(rec, P, "UBig*u16", class, guard(|| &ua * p16), (a * &b).magnitude(), || case("*"));
+                expect_u(rec, P, "u16+UBig", class, guard(|| p16 + &ua), (a + &b).magnitude(), || case("+"));
+            }
+        }
+        if !a.is_zero() && pv != 0 {
+            rec.nontrivial();
+        }
+        rec.sample(|| case("(+,-,*)"));
+    });
+
+    // sums and products over slices (Sum / Product impls)
+    ctx.sweep("iter.sum.product", n, |i, rec| {
+        let a = &i3r[i as usize];
+        let terms: Vec<BigInt> = vec![a.clone(), BigInt::from(3), -a.clone() + 1, BigInt::from(u64::MAX), a.clone()];
+        let dv: Vec<IBig> = terms.iter().map(ref_to_i).collect();
+        let want_s: BigInt = terms.iter().sum();
+        let want_p: BigInt = terms.iter().product();
+        expect_i(rec, P, "IBig::sum(&)", "iter", guard(|| dv.iter().sum::<IBig>()), &want_s, || format!("sum over 5 terms built from {}", hex(a)));
+        expect_i(rec, P, "IBig::sum(val)", "iter", guard(|| dv.clone().into_iter().sum::<IBig>()), &want_s, || format!("sum over 5 terms built from {}", hex(a)));
+        expect_i(rec, P, "IBig::product(&)", "iter", guard(|| dv.iter().product::<IBig>()), &want_p, || format!("product over 5 terms built from {}", hex(a)));
+        if nonneg(a) {
+            let du: Vec<UBig> = vec![ref_to_u(a.magnitude()), UBig::from(7u8), ref_to_u(a.magnitude())];
+            let ws = a.magnitude() * 2u32 + 7u32;
+            let wp = a.magnitude() * a.magnitude() * 7u32;
+            expect_u(rec, P, "UBig::sum(&)", "iter", guard(|| du.iter().sum::<UBig>()), &ws, || format!("sum a + 7 + a, a = {}", hex(a)));
+            expect_u(rec, P, "UBig::product(val)", "iter", guard(|| du.clone().into_iter().product::<UBig>()), &wp, || format!("product a * 7 * a, a = {}", hex(a)));
+        }
+        rec.nontrivial();
+    });
+
     // (c) pow
     let mut bases: Vec<BigInt> = vec![];
     for v in [0i64, 1, 2, 3, 5, 10, 16, 255, 256, 0xFFFF_FFFF, 0x1_0000_0000, 6, 12, 96, 1 << 20, 3 << 40] {
